@@ -376,8 +376,13 @@ def api_verified(ctx, rule):
     wrappers(ctx, rule)
     storage_pair(ctx, rule, rule)
     prefix_table(ctx, rule)
+    memoisation_discipline(ctx, rule)
+    parse_quantity_forms(ctx, rule)
+    parse_concentration_forms(ctx, rule, rule)
     new = ctx.obs[before:]
     failing = [o for o in new if not o.ok]
+    for o in failing:
+        o.rule = rule
     del ctx.obs[before:]
     ctx.obs.extend(failing)
     fi = ctx.model.func('Unit.convert_from')
@@ -385,3 +390,57 @@ def api_verified(ctx, rule):
                                      'storage pair, prefix table)', not failing,
            fact=f"{len(new)} items, {len(failing)} failing", why='a conversion this property relies on is wrong',
            key='unit api summary')
+
+
+def memoisation_discipline(ctx, rule):
+    """A memoised function answers from its arguments' hash key alone.  For the Unit API that is wrong in two ways: the
+    functions read the configuration at call time (a cached answer survives a configuration change), and they read
+    fields of their Substance argument that `Substance.__hash__` / `__eq__` leave out (specific_activity: two lots of
+    one enzyme are equal keys with different conversions).  Every cached function of class Unit / Substance must
+    neither read `config` nor read a field of a library-class parameter that is outside that class's hash."""
+    import ast as _ast
+    model = ctx.model
+    hashed = {}
+    for cname in ('Substance', 'Container'):
+        ci = model.classes.get(cname)
+        h = ci.methods.get('__hash__') if ci else None
+        if h is not None:
+            hashed[cname] = {x.attr for x in _ast.walk(h.node) if isinstance(x, _ast.Attribute) and
+                             isinstance(x.value, _ast.Name) and x.value.id == 'self'}
+
+    def attrs_read(fi, pname, seen):
+        out = set()
+        if (fi.qualname, pname) in seen:
+            return out
+        seen.add((fi.qualname, pname))
+        for x in _ast.walk(fi.node):
+            if isinstance(x, _ast.Attribute) and isinstance(x.value, _ast.Name) and x.value.id == pname:
+                m = model.lookup_method('Substance', x.attr)
+                if m is not None and not m.is_property:
+                    out |= attrs_read(m, m.param_names(drop_self=False)[0], seen)
+                else:
+                    out.add(x.attr)
+        return out
+    n = 0
+    for cname in ('Unit', 'Substance'):
+        ci = model.classes.get(cname)
+        if ci is None:
+            continue
+        for m in ci.methods.values():
+            if not m.is_cached:
+                continue
+            n += 1
+            problems = []
+            if any(isinstance(x, _ast.Name) and x.id == 'config' for x in _ast.walk(m.node)):
+                problems.append('reads the configuration at call time')
+            for p in m.all_param_names():
+                ann = m.annotation(p) or ''
+                if 'Substance' in ann or p == 'substance':
+                    extra = attrs_read(m, p, set()) - hashed.get('Substance', set()) - {'name'}
+                    extra = {a for a in extra if not a.startswith('__')}
+                    if extra:
+                        problems.append(f"reads {sorted(extra)} of `{p}`, which Substance.__hash__ / __eq__ ignore")
+            ctx.ob(rule, m, m.node.lineno, f"{m.qualname} is memoised: its answer depends on its hash key only", not problems,
+                   fact=f"decorators {sorted(m.decorators)}", why='; '.join(problems) + ': a cached answer is returned for another '
+                   'substance / configuration', key=f"memoised {m.qualname}")
+    ctx.count('memoised_unit_functions', n)
